@@ -85,9 +85,10 @@ Definition dfeeinfo (s : string) : option (option feeinfo) :=
 Definition doptamt (s : string) : option (option N) := dopt dnum s.
 Definition daction (s : string) : option action :=
   match split ":" s with
-  | ["F"; b; qt; f] => let? b := dnum b in let? qt := dnum qt in let? f := doptamt f in Some (AFill b qt f)
-  | ["R"; qt; f] => let? qt := dnum qt in let? f := doptamt f in Some (ARefund qt f)
-  | ["J"; b; qt; f] => let? b := dnum b in let? qt := dnum qt in let? f := doptamt f in Some (AReject b qt f)
+  (* lower-case letters: the same event logged with a block height in the future; only the amounts are ever read *)
+  | ["F"; b; qt; f] | ["f"; b; qt; f] => let? b := dnum b in let? qt := dnum qt in let? f := doptamt f in Some (AFill b qt f)
+  | ["R"; qt; f] | ["r"; qt; f] => let? qt := dnum qt in let? f := doptamt f in Some (ARefund qt f)
+  | ["J"; b; qt; f] | ["j"; b; qt; f] => let? b := dnum b in let? qt := dnum qt in let? f := doptamt f in Some (AReject b qt f)
   | _ => None
   end.
 Definition devents (s : string) : option (list action) :=
@@ -198,8 +199,8 @@ Definition with_follow (r : rstate) (f : follow) : rstate :=
 (* ---------------------------------------------------------------- request parsers *)
 Definition dmarker (s : string) : option (string * mkind) :=
   match split "=" s with
-  | [d; "R"] | [d; "Ra"] | [d; "Rp"] | [d; "Rc"] | [d; "Rd"] | [d; "Rx"] => let? dn := dstr d in Some (dn, MRestricted)
-  | [d; "U"] | [d; "Ua"] | [d; "Ud"] | [d; "E"] | [d; "Z"] | [d; "T"] => let? dn := dstr d in Some (dn, MOther)
+  | [d; "R"] | [d; "Ra"] | [d; "Rp"] | [d; "Rc"] | [d; "Rd"] | [d; "Rx"] | [d; "Rm"] => let? dn := dstr d in Some (dn, MRestricted)
+  | [d; "U"] | [d; "Ua"] | [d; "Ud"] | [d; "E"] | [d; "Z"] | [d; "T"] | [d; "Um"] => let? dn := dstr d in Some (dn, MOther)
       (* E: the marker query fails; Z / T: a marker of type 0 (unspecified) / 3 (unknown): only type 2 is restricted *)
   | _ => None
   end.
@@ -348,7 +349,7 @@ Definition step_line (r : rstate) (raw : string) : rstate * list string :=
       | Some m, Some a => (mkrs (rs_st r) m a (rs_crate r) (rs_version r) (rs_self r) (rs_fix r), block line [])
       | _, _ => (r, malformed line)
       end
-    | "INST", _sender :: rest =>
+    | "INST", _sender :: rest | "INSTX", _sender :: rest =>     (* ...X: sent as JSON with an undeclared member *)
       match dinst rest with
       | Some m => finish r line false (instantiate e st m)
       | None => (r, malformed line)
@@ -426,7 +427,7 @@ Definition step_line (r : rstate) (raw : string) : rstate * list string :=
 
 (* follow-mode wrapper: processes the dump lines of the implementation's trace *)
 Definition adoptable (kw : string) : bool :=
-  mem kw ["INST"; "INSTF"; "EXEC"; "MIGRATE"; "SEEDVER"; "SEEDNOVER"; "SEEDCFG"; "SEEDASK"; "SEEDBID3"; "SEEDBID2"; "SEEDBID2X"].
+  mem kw ["INST"; "INSTF"; "INSTX"; "EXEC"; "MIGRATE"; "SEEDVER"; "SEEDNOVER"; "SEEDCFG"; "SEEDASK"; "SEEDBID3"; "SEEDBID2"; "SEEDBID2X"].
 Definition run_line (r : rstate) (raw : string) : rstate * list string :=
   let f := rs_follow r in
   if negb (fo_on f) then
